@@ -175,9 +175,11 @@ RECORD_KINDS = list(CONTAINERS) + list(OTHER_KINDS)
 
 
 def _row_of(d, names):
+    """a Row of a class made here, by hand: the record object must not ask the library for a row class (that would be one
+    more use of `Row.create_class`, whose calls are a dimension of their own — see FEATURES below)"""
     from orso.row import Row
 
-    return Row.create_class(list(names))(tuple(d.get(n) for n in names))
+    return type("RowFactory", (Row,), {"_fields": tuple(str(n) for n in names)})(tuple(d.get(n) for n in names))
 
 
 def kind_flags(obj):
@@ -225,10 +227,80 @@ def make_col(c):
         return FlatColumn(name=name, type=OrsoTypes[ty], nullable=nullable, aliases=list(aliases))
 
 
-def make_schema(cols):
-    from orso.schema import RelationSchema
+# the ways a RelationSchema with given columns comes to be ("for all schemas": however they were made)
+ROUTES = ("direct", "type-name", "dict-roundtrip", "json-roundtrip", "deepcopy", "copy", "pickle", "constant-columns", "function-columns",
+          "sum", "arrow-schema")
 
-    return RelationSchema(name="t", columns=[make_col(c) for c in cols])
+
+def make_schema(cols, via="direct"):
+    from orso.schema import ConstantColumn, FlatColumn, FunctionColumn, RelationSchema
+
+    if via in (None, "direct"):
+        return RelationSchema(name="t", columns=[make_col(c) for c in cols])
+    with warnings.catch_warnings():
+        warnings.simplefilter("ignore")
+        if via == "type-name":
+            # the column type given by its name, as in a schema read from a configuration file
+            columns = []
+            for c in cols:
+                name, ty, nullable, aliases = norm_col(c)
+                kw = {} if ty is None else {"type": ty}
+                columns.append(FlatColumn(name=name, nullable=nullable, aliases=list(aliases), **kw))
+            return RelationSchema(name="t", columns=columns)
+        if via in ("constant-columns", "function-columns"):
+            from orso.types import OrsoTypes
+
+            cls = ConstantColumn if via == "constant-columns" else FunctionColumn
+            columns = []
+            for c in cols:
+                name, ty, nullable, aliases = norm_col(c)
+                kw = {} if ty is None else {"type": OrsoTypes[ty]}
+                columns.append(cls(name=name, nullable=nullable, aliases=list(aliases), **kw))
+            return RelationSchema(name="t", columns=columns)
+        if via == "sum":
+            k = len(cols) // 2
+            return RelationSchema(name="t", columns=[make_col(c) for c in cols[:k]]) + RelationSchema(name="u", columns=[make_col(c) for c in cols[k:]])
+        if via == "arrow-schema":
+            import pyarrow
+
+            from orso.schema import convert_arrow_schema_to_orso_schema
+
+            return convert_arrow_schema_to_orso_schema(pyarrow.schema([pyarrow.field(c[0], arrow_type(c[1]), nullable=bool(c[2])) for c in cols]))
+        base = RelationSchema(name="t", columns=[make_col(c) for c in cols])
+        if via == "dict-roundtrip":
+            return RelationSchema.from_dict(base.to_dict())
+        if via == "json-roundtrip":
+            return RelationSchema(name="t", columns=[FlatColumn.from_json(c.to_json()) for c in base.columns])
+        if via == "deepcopy":
+            return copy.deepcopy(base)
+        if via == "copy":
+            return copy.copy(base)
+        if via == "pickle":
+            import pickle
+
+            return pickle.loads(pickle.dumps(base))
+    raise BadCase("schema route %r" % (via,))
+
+
+def schema_for(case):
+    """(schema object, the columns records are judged against) for a case whose schema is made through `case["via"]`.
+    A route may legitimately change what a column is (that is another property's business): the records are judged against
+    the columns the schema object HAS — its name / type / nullable fields, read back —, never against what went in.
+    (None, reason) when the route cannot make this schema."""
+    cols = [norm_col(c) for c in case["cols"]]
+    via = case.get("via")
+    if via in (None, "direct"):
+        return make_schema(cols), cols
+    try:
+        schema = make_schema(cols, via)
+    except BadCase:
+        raise
+    except Exception as e:
+        return None, "schema route %s raised %s" % (via, type(e).__name__)
+    seen = observed_cols(schema)
+    if seen is None or len({c[0] for c in seen}) != len(seen):
+        return None, "schema route %s left the statement" % via
+    return schema, seen
 
 
 def plain_record(tags):
@@ -335,8 +407,9 @@ def judge_validate_kind(got, want, obj):
 
 
 def run_validate(case):
-    cols = [norm_col(c) for c in case["cols"]]
-    schema = make_schema(cols)
+    schema, cols = schema_for(case)
+    if schema is None:
+        return None, {"skipped": cols}
     kind = case.get("container", "dict")
     rec = record_of(case["record"], kind, [c[0] for c in cols])
     view = record_view(case["record"], kind)
@@ -442,32 +515,184 @@ def abstract_rows(rows):
     return out
 
 
-def make_frame(schema, init, how):
+# ----------------------------------------------------------------------------- other features used in the same process
+#
+# A frame's rows are built by a row class the library makes when the frame is created (`Row.create_class`).  Other
+# features ask for row classes too: reading an arrow table (a tuples-only class for its reader, then a frame), frames built
+# from dictionaries or on a plain list of names, frames on other schemas that happen to have the same column names,
+# `Row.create_class` itself.  None of them may change what an append to *this* frame stores.  A feature is a JSON list:
+#   ["arrow", names, n, read]      DataFrame.from_arrow of a table with these columns and n rows (read: iterate it)
+#   ["arrow-reader", names, n]     converters.from_arrow only (the reader and its rows, no frame)
+#   ["rowclass", names, tuples_only]
+#   ["dictframe", names]           DataFrame(dictionaries=[…]) with these keys, one append
+#   ["listframe", names]           DataFrame(rows=[], schema=[names]), one append
+#   ["schemaframe", cols, tags]    a frame on ANOTHER RelationSchema (cols), one append of the tagged record
+ARROW_ROWS = {"INTEGER": ["int", "int0", "bigint", "i64max", "i64min"], "DOUBLE": ["float", "negzero", "inf"],
+              "VARCHAR": ["str", "empty", "nonascii"], "BOOLEAN": ["true", "false"], "BLOB": ["bytes", "emptybytes"]}
+FEATURE_KINDS = ("arrow", "arrow-reader", "rowclass", "dictframe", "listframe", "schemaframe")
+
+
+def arrow_type(ty):
+    import pyarrow
+
+    return {"INTEGER": pyarrow.int64(), "DOUBLE": pyarrow.float64(), "VARCHAR": pyarrow.string(), "BOOLEAN": pyarrow.bool_(),
+            "BLOB": pyarrow.binary()}[ty]
+
+
+def arrow_table(cols, init):
+    """an arrow table with the columns `cols` ([name, type, nullable, …]) holding the rows `init` (tuples of values)"""
+    import pyarrow
+
+    fields = [pyarrow.field(c[0], arrow_type(c[1]), nullable=bool(c[2])) for c in cols]
+    arrays = [pyarrow.array([r[i] for r in init], type=arrow_type(c[1])) for i, c in enumerate(cols)]
+    return pyarrow.Table.from_arrays(arrays, schema=pyarrow.schema(fields))
+
+
+def arrow_ok(cols, rows):
+    """can a frame with these columns and initial rows be created from an arrow table and come back value for value?"""
+    return len(cols) >= 1 and all(c[1] in ARROW_ROWS for c in cols) and all(all(t in ARROW_ROWS[c[1]] for c, t in zip(cols, r)) for r in rows)
+
+
+def feature_ok(f):
+    strs = lambda xs: isinstance(xs, list) and all(isinstance(x, str) for x in xs) and len(set(xs)) == len(xs)
+    try:
+        k = f[0]
+        if k == "arrow":
+            return len(f) == 4 and strs(f[1]) and len(f[1]) >= 1 and f[2] in (0, 1, 2) and isinstance(f[3], bool)
+        if k == "arrow-reader":
+            return len(f) == 3 and strs(f[1]) and len(f[1]) >= 1 and f[2] in (0, 1, 2)
+        if k == "rowclass":
+            return len(f) == 3 and strs(f[1]) and isinstance(f[2], bool)
+        if k in ("dictframe", "listframe"):
+            return len(f) == 2 and strs(f[1]) and len(f[1]) >= 1
+        if k == "schemaframe":
+            return len(f) == 3 and raw_cols_ok(f[1]) and names_ok([norm_col(c) for c in f[1]]) and isinstance(f[2], dict) \
+                and all(isinstance(k_, str) and t in POOL for k_, t in f[2].items())
+    except Exception:
+        pass
+    return False
+
+
+def run_feature(f):
+    """Use another feature of the library.  What it returns or raises is other properties' business."""
+    from orso import DataFrame
+    from orso.row import Row
+
+    k = f[0]
+    try:
+        if k in ("arrow", "arrow-reader"):
+            names, n = f[1], f[2]
+            table = arrow_table([[nm, "INTEGER", True] for nm in names], [tuple(range(i, i + len(names))) for i in range(n)])
+            if k == "arrow":
+                df = DataFrame.from_arrow(table)
+                if f[3]:
+                    for _ in df:
+                        pass
+            else:
+                from orso.converters import from_arrow
+
+                rows, _schema = from_arrow(table)
+                for _ in rows:
+                    pass
+        elif k == "rowclass":
+            cls = Row.create_class(list(f[1]), tuples_only=f[2])
+            cls(tuple(range(len(f[1]))))
+            if not f[2]:
+                cls({nm: 0 for nm in f[1]})
+        elif k == "dictframe":
+            df = DataFrame([{nm: i for i, nm in enumerate(f[1])}])
+            df.append({nm: 0 for nm in f[1]})
+        elif k == "listframe":
+            df = DataFrame(rows=[], schema=list(f[1]))
+            df.append({nm: 0 for nm in f[1]})
+        elif k == "schemaframe":
+            df = DataFrame(rows=[], schema=make_schema([norm_col(c) for c in f[1]]))
+            df.append(plain_record(f[2]))
+        else:
+            raise BadCase("feature %r" % (k,))
+    except BadCase:
+        raise
+    except Exception:
+        pass
+
+
+def feature_script(f):
+    """The requests for a row class a feature makes, as the model reads them: [names, who asks] with who = "reader"
+    (the arrow reader), "frame" (the DataFrame constructor) or the `tuples_only` flag of a direct call."""
+    k = f[0]
+    if k == "arrow":
+        return [["feature", list(f[1]), "reader"], ["feature", list(f[1]), "frame"]]
+    if k == "arrow-reader":
+        return [["feature", list(f[1]), "reader"]]
+    if k == "rowclass":
+        return [["feature", list(f[1]), bool(f[2])]]
+    if k in ("dictframe", "listframe"):
+        return [["feature", list(f[1]), "frame"]]
+    return [["feature", [norm_col(c)[0] for c in f[1]], "frame"]]
+
+
+def observed_cols(schema):
+    """[name, type, nullable, aliases] of the columns of a schema the library made itself (from_arrow); None if a column
+    has a type the statement does not speak about"""
+    from orso.types import OrsoTypes
+
+    out = []
+    for c in schema.columns:
+        ty = None if c.type == OrsoTypes._MISSING_TYPE else getattr(c.type, "name", None)
+        if ty is not None and ty not in EXPECTED_CLASS:
+            return None
+        out.append([c.name, ty, bool(c.nullable), [str(a) for a in (c.aliases or [])]])
+    return out
+
+
+def make_frame(schema, init, how, cols=None):
     from orso import DataFrame
 
     if how == "none" and not init:
         return DataFrame(schema=schema)
     if how == "gen":
         return DataFrame(rows=(r for r in list(init)), schema=schema)
+    if how == "arrow":
+        # the library derives the schema from the table; the frame holds the table's rows lazily
+        return DataFrame.from_arrow(arrow_table(cols, init))
     return DataFrame(rows=list(init), schema=schema)
+
+
+def arrow_differs(cols, init):
+    """does an arrow table with these rows come back differently from what went in? (how arrow values are converted is
+    another property's business: such a case is not judged here)"""
+    try:
+        probe = make_frame(None, init, "arrow", cols)
+        probe.materialize()
+        return len(probe._rows) != len(init) or not all(wire_eq(tuple(a), tuple(b)) for a, b in zip(probe._rows, init))
+    except Exception:
+        return True
 
 
 def run_frame(schema, cols, init_tags, records, how="list", containers=None):
     """Appends `records` to a frame bound to `schema`; every verdict is judged against `cols`."""
     init = [tuple(POOL[t] for t in row) for row in init_tags]
-    df = make_frame(schema, init, how)
+    df = make_frame(schema, init, how, cols)
+    seen_cols = None
+    if how == "arrow":
+        # the schema is the one the library derived from the table: the records are judged against ITS columns
+        schema = df.schema
+        seen_cols = cols = observed_cols(schema)
+        if cols is None:
+            return None, {"skipped": "arrow schema outside the statement"}
     held = list(init)
     clause = None
     results = []
+    lazy = how in ("gen", "arrow")
 
     def rows_now():
         df.materialize()
         return list(df._rows)
 
-    before = list(init) if how == "gen" else rows_now()
+    before = list(init) if lazy else rows_now()
     for i, tags in enumerate(records):
         kind = (containers or {}).get(str(i), "dict") if isinstance(containers, dict) else "dict"
-        c, result, stored, after = append_step(df, schema, cols, tags, kind, before, rows_now, lazy_first=(how == "gen" and i == 0))
+        c, result, stored, after = append_step(df, schema, cols, tags, kind, before, rows_now, lazy_first=(lazy and i == 0))
         clause = clause or c
         results.append(result)
         if result == ["ok"]:
@@ -478,12 +703,22 @@ def run_frame(schema, cols, init_tags, records, how="list", containers=None):
         clause = "the frame does not hold exactly the accepted records, in order"
     if clause is None:
         clause = rows_conform(cols, final)
-    return clause, {"results": results, "rows": abstract_rows(final)}
+    if clause is not None and how == "arrow" and arrow_differs(cols, init):
+        return None, {"skipped": "arrow construction differs"}
+    got = {"results": results, "rows": abstract_rows(final)}
+    if seen_cols is not None:
+        got["cols"] = seen_cols
+    return clause, got
 
 
 def run_appends(case):
-    cols = [norm_col(c) for c in case["cols"]]
-    return run_frame(make_schema(cols), cols, case["rows"], case["records"], case.get("how", "list"), case.get("containers"))
+    schema, cols = schema_for(case)
+    if schema is None:
+        return None, {"skipped": cols}
+    clause, got = run_frame(schema, cols, case["rows"], case["records"], case.get("how", "list"), case.get("containers"))
+    if case.get("via") not in (None, "direct") and "cols" not in got and not got.get("skipped"):
+        got["cols"] = cols
+    return clause, got
 
 
 def run_dictframe(case):
@@ -495,6 +730,7 @@ def run_dictframe(case):
     keys = list(first[0].keys())
     held = [tuple(d.get(k) for k in keys) for d in first]
     clause = None
+    results = []
     if not all(wire_eq(tuple(a), b) for a, b in zip(df._rows, held)) or len(df._rows) != len(held):
         return None, {"skipped": "construction differs"}  # construction is C03's business
     for i, tags in enumerate(case["records"]):
@@ -506,6 +742,7 @@ def run_dictframe(case):
         except Exception as e:
             raised = e
         after = list(df._rows)
+        results.append(["ok"] if raised is None else ["raised", type(raised).__name__])
         if raised is not None:
             if len(after) != len(before) or any(a is not b for a, b in zip(after, before)):
                 clause = clause or "append raised but changed the frame's rows"
@@ -517,7 +754,15 @@ def run_dictframe(case):
                 clause = clause or "append did not add exactly one row"
             elif not wire_eq(tuple(after[-1]), row):
                 clause = clause or "appended row does not hold the values in column order"
-    return clause, {"rows": len(df._rows)}
+    return clause, {"rows": len(df._rows), "held": abstract_rows([tuple(r) for r in df._rows]), "results": results,
+                    "keys": [str(k) for k in keys], "string-keys": all(isinstance(k, str) for k in keys)}
+
+
+def dictframe_line(case):
+    first = case["first"]
+    keys = list(first[0].keys())
+    rows = [[cls_name(POOL[d[k]]) if k in d else None for k in keys] for d in first]
+    return "C05 dictframe " + wire.line(keys, rows, m_appends(case["records"], case.get("containers")))
 
 
 # ----------------------------------------------------------------------------- families of frames
@@ -590,10 +835,10 @@ def real_derive(method, args, df, other=None):
 def derive_args_ok(method, args, n_frames):
     ints = lambda xs: all(isinstance(x, int) and not isinstance(x, bool) for x in xs)
     if method in ("head", "tail"):
-        return len(args) == 1 and ints(args) and 0 <= args[0] <= 50
+        return len(args) == 1 and ints(args) and 0 <= args[0] <= 2000
     if method == "slice":
-        return len(args) <= 2 and ints(args[:1]) and -50 <= (args[0] if args else 0) <= 50 and \
-            (len(args) < 2 or args[1] is None or (ints(args[1:]) and 0 <= args[1] <= 50))
+        return len(args) <= 2 and ints(args[:1]) and -2000 <= (args[0] if args else 0) <= 2000 and \
+            (len(args) < 2 or args[1] is None or (ints(args[1:]) and 0 <= args[1] <= 2000))
     if method == "query":
         return len(args) == 1 and args[0] in PREDICATES
     if method == "distinct":
@@ -609,13 +854,36 @@ def derive_args_ok(method, args, n_frames):
     return False
 
 
-FRAME_TOUCHES = ("nbytes", "hash", "str", "description", "shape", "row0", "fetch", "iter-once", "column_names")
+FRAME_TOUCHES = ("nbytes", "hash", "str", "description", "shape", "row0", "fetch", "iter-once", "column_names",
+                 "select", "arrow-roundtrip", "group_by")
 
 
-def touch_frame(df, what):
+def touch_frame(df, what, names=()):
     """Use a frame in a way that must not change its rows; what it returns (or raises) is other properties' business.
-    A lazily backed frame is materialised first: what reading one does to its generator is C04's business."""
+    A lazily backed frame is materialised first: what reading one does to its generator is C04's business.
+    Returns the requests for a row class the use is known to make (for the process machine; best effort)."""
     df.materialize()
+    asked = []
+    try:
+        if what == "select":
+            sub = list(names)[:1]
+            list(df.select(sub))
+            asked = [["feature", sub, "frame"]]
+        elif what == "arrow-roundtrip":
+            from orso import DataFrame
+
+            table = df.arrow()
+            back = DataFrame.from_arrow(table)
+            asked = [["feature", list(names), "reader"], ["feature", list(names), "frame"]]
+            list(back)
+        elif what == "group_by":
+            list(df.group_by(list(names)[:1]).count())
+    except BadCase:
+        raise
+    except Exception:
+        pass
+    if what in ("select", "arrow-roundtrip", "group_by"):
+        return asked
     try:
         if what == "nbytes":
             df.nbytes()
@@ -641,20 +909,35 @@ def touch_frame(df, what):
         raise
     except Exception:
         pass
+    return asked
 
 
 def run_family(case):
     """A root frame and frames derived from it; every frame is a register of its own append history."""
-    cols = [norm_col(c) for c in case["cols"]]
-    schema = make_schema(cols)
+    schema, cols = schema_for(case)
+    if schema is None:
+        return None, {"skipped": cols}
     init = [tuple(POOL[t] for t in row) for row in case["rows"]]
     how = case.get("how", "list")
-    frames = [{"df": make_frame(schema, init, how), "held": list(init), "lazy": how == "gen"}]
+    script = []       # the same program, as the model reads it
+    process = []      # the same program with every request for a row class in it (the process machine)
+    for f in case.get("pre") or []:
+        run_feature(f)
+        process += feature_script(f)
+    root = make_frame(schema, init, how, cols)
+    seen_cols = cols if case.get("via") not in (None, "direct") else None
+    if how == "arrow":
+        # the schema is the one the library derived from the table: the records are judged against ITS columns
+        schema = root.schema
+        seen_cols = cols = observed_cols(schema)
+        if cols is None:
+            return None, {"skipped": "arrow schema outside the statement"}
+    process.append(["frame", how == "arrow"])
+    frames = [{"df": root, "held": list(init), "lazy": how in ("gen", "arrow")}]
     clause = None
     results = []
     mismatch = 0
     derive_raised = None
-    script = []       # the same program, as the model reads it
     modelled = True   # False when a derived frame starts with rows that are not rows of its parent
 
     def positions(rows, parent_rows):
@@ -696,6 +979,7 @@ def run_family(case):
                 return list(f["df"]._rows)
 
             script.append(["append", op[1], m_rec(op[2]), sizable(op[2]), kind_flags(record_of(op[2], kind, [c_[0] for c_ in cols]))])
+            process.append(script[-1])
             lazy_first = not isinstance(f["df"]._rows, list)
             before = list(f["held"]) if lazy_first else rows_now()
             c, result, stored, after = append_step(f["df"], schema, cols, op[2], kind, before, rows_now, lazy_first=lazy_first)
@@ -738,13 +1022,20 @@ def run_family(case):
                 if at is None:
                     modelled = False
                 script.append(["pick", op[1], {"batches": "to_batches"}.get(method, method), at or []])
+            if method == "batches":
+                # to_batches makes one frame per batch: as many requests for a row class as there are batches
+                process += [["feature", [c_[0] for c_ in cols], "frame"]] * max(0, -(-len(parent["held"]) // args[0]) - 1)
+            process.append(script[-1])
+        elif k == "feature":
+            run_feature(op[1])
+            process += feature_script(op[1])
         elif k == "read":
             f = frames[op[1]]
             len(f["df"])
             for _ in f["df"]:
                 pass
         elif k == "touch":
-            touch_frame(frames[op[1]]["df"], op[2])
+            process += touch_frame(frames[op[1]]["df"], op[2], [c_[0] for c_ in cols])
         else:
             raise BadCase("family op %r" % (k,))
         if clause is None:
@@ -758,15 +1049,24 @@ def run_family(case):
     if clause is None:
         for rows in finals:
             clause = clause or rows_conform(cols, rows)
-    return clause, {"results": results, "frames": [abstract_rows(r) for r in finals], "derived-content-differs": mismatch,
-                    "script": script if modelled else None, "derive-raised": derive_raised}
+    if clause is not None and how == "arrow" and arrow_differs(cols, init):
+        return None, {"skipped": "arrow construction differs"}
+    got = {"results": results, "frames": [abstract_rows(r) for r in finals], "derived-content-differs": mismatch,
+           "script": script if modelled else None, "process": process if modelled else None, "derive-raised": derive_raised}
+    if seen_cols is not None:
+        got["cols"] = seen_cols
+    return clause, got
 
 
 def check_family(case):
     cols = [norm_col(c) for c in case["cols"]]
-    if case.get("how", "list") not in ("list", "none", "gen") or (case.get("how") == "none" and case["rows"]):
+    if case.get("how", "list") not in ("list", "none", "gen", "arrow") or (case.get("how") == "none" and case["rows"]):
         return False
     if not rows_ok(cols, case["rows"]):
+        return False
+    if case.get("how") == "arrow" and not arrow_ok(cols, case["rows"]):
+        return False
+    if "pre" in case and not (isinstance(case["pre"], list) and all(feature_ok(f) for f in case["pre"])):
         return False
     n = 1
     for op in case["ops"]:
@@ -784,6 +1084,9 @@ def check_family(case):
                 return False
         elif op[0] == "touch":
             if not (len(op) == 3 and isinstance(op[1], int) and 0 <= op[1] < n and op[2] in FRAME_TOUCHES):
+                return False
+        elif op[0] == "feature":
+            if not (len(op) == 2 and feature_ok(op[1])):
                 return False
         else:
             return False
@@ -894,7 +1197,9 @@ TOUCHES = ("names", "find", "rename-schema", "metadata", "relist", "deepcopy", "
 
 def run_session(case):
     cur = [norm_col(c) for c in case["cols"]]
-    schema = make_schema(cur)
+    schema, seen = schema_for(case)
+    if schema is None or [c[:3] for c in seen] != [c[:3] for c in cur]:
+        return None, {"skipped": "schema route %s does not keep the columns" % case.get("via")}
     clause = None
     outs = []
     for op in case["ops"]:
@@ -923,9 +1228,10 @@ HISTORY = ("the verdict depends on the history of the schema object, not only on
            "changed judges a record differently from a freshly built schema with the same columns")
 
 
-def reduce_session(case, clause):
+def reduce_session(case, clause, fresh=False):
     """A session that fails: the same record / appends on a freshly built schema with the columns of that moment.
-    Returns the plain case when it fails too (the history is not needed), else None."""
+    Returns the plain case when it fails too (the history is not needed), else None.  `fresh`: the plain case is tried in
+    a process of its own (what this process has been through must not decide)."""
     cur, op = run_session.failed_at
     if op[0] == "validate":
         plain = {"kind": "validate", "cols": cur, "record": op[1]}
@@ -935,9 +1241,12 @@ def reduce_session(case, clause):
         plain = {"kind": "appends", "cols": cur, "rows": op[1], "records": op[2]}
         if len(op) > 3:
             plain["how"] = op[3]
+    if case.get("via") not in (None, "direct") and not (case["via"] == "arrow-schema" and not all(c[1] in ARROW_ROWS for c in cur)):
+        plain["via"] = case["via"]   # a freshly built schema with the columns of that moment, made the same way
     try:
         if valid_case(plain):
-            pc = RUNNERS[plain["kind"]](plain)[0]
+            out = fresh_run(plain) if fresh else UNAVAILABLE
+            pc = (RUNNERS[plain["kind"]](plain) if out is UNAVAILABLE else out)[0]
             if pc is not None:
                 return plain, pc
     except InfraError:
@@ -1023,8 +1332,10 @@ def m_appends(records, containers=None, names=()):
     return out
 
 
-def model_line(case):
-    cols = [norm_col(c) for c in case["cols"]]
+def model_line(case, seen_cols=None):
+    cols = seen_cols or [norm_col(c) for c in case["cols"]]
+    if seen_cols is None and case.get("via") not in (None, "direct") and case["kind"] == "validate":
+        cols = schema_for(case)[1]
     if case["kind"] == "validate":
         kind = case.get("container", "dict")
         return "C05 validatek " + wire.line(cols, m_rec(case["record"]), kind_flags(record_of(case["record"], kind, [c[0] for c in cols])))
@@ -1054,8 +1365,12 @@ def model_line(case):
     return "C05 appends " + wire.line(cols, m_rows(case["rows"]), m_appends(case["records"], case.get("containers"), [c[0] for c in cols]))
 
 
-def family_line(case, script):
-    return "C05 family " + wire.line([norm_col(c) for c in case["cols"]], m_rows(case["rows"]), script)
+def family_line(case, script, seen_cols=None):
+    return "C05 family " + wire.line(seen_cols or [norm_col(c) for c in case["cols"]], m_rows(case["rows"]), script)
+
+
+def process_line(case, process, seen_cols=None):
+    return "C05 process " + wire.line(seen_cols or [norm_col(c) for c in case["cols"]], m_rows(case["rows"]), process)
 
 
 def valid_case(c):
@@ -1071,6 +1386,8 @@ def valid_case(c):
         cols = [norm_col(x) for x in c["cols"]]
         if not names_ok(cols):
             return False
+        if c.get("via", "direct") not in ROUTES or (c.get("via") == "arrow-schema" and not all(x[1] in ARROW_ROWS for x in cols)):
+            return False
         if kind == "validate":
             return all(t in POOL for t in c["record"].values()) and c.get("container", "dict") in RECORD_KINDS
         if kind == "session":
@@ -1079,13 +1396,58 @@ def valid_case(c):
             return check_family(c)
         if kind != "appends":
             return False
-        if c.get("how", "list") not in ("list", "none", "gen") or (c.get("how") == "none" and c["rows"]):
+        if c.get("how", "list") not in ("list", "none", "gen", "arrow") or (c.get("how") == "none" and c["rows"]):
+            return False
+        if c.get("how") == "arrow" and not arrow_ok(cols, c["rows"]):
             return False
         if not all(v in RECORD_KINDS for v in (c.get("containers") or {}).values()):
             return False
         return rows_ok(cols, c["rows"]) and all(all(t in POOL for t in r.values()) for r in c["records"])
     except Exception:
         return False
+
+
+def drop_record_keys(case, still, budget=60):
+    """The shared shrinker never removes a key of a dict: try every record (a dict of value tags) of the case with one key
+    less, as long as the case still fails the same way."""
+    def records(x, path=()):
+        if isinstance(x, dict):
+            if path and x and all(isinstance(v, str) and v in POOL for v in x.values()):
+                yield path
+            else:
+                for k, v in x.items():
+                    yield from records(v, path + (k,))
+        elif isinstance(x, list):
+            for i, v in enumerate(x):
+                yield from records(v, path + (i,))
+
+    def without(x, path, key):
+        if not path:
+            return {k: v for k, v in x.items() if k != key}
+        y = dict(x) if isinstance(x, dict) else list(x)
+        y[path[0]] = without(x[path[0]], path[1:], key)
+        return y
+
+    def at(x, path):
+        for p_ in path:
+            x = x[p_]
+        return x
+
+    cur, progress = case, True
+    while progress and budget > 0:
+        progress = False
+        for path in list(records(cur)):
+            for key in list(at(cur, path)):
+                if budget <= 0:
+                    break
+                budget -= 1
+                cand = without(cur, path, key)
+                try:
+                    if still(cand):
+                        cur, progress = cand, True
+                except Exception:
+                    pass
+    return cur
 
 
 def tidy(c):
@@ -1099,6 +1461,8 @@ def tidy(c):
         del c["container"]
     if c.get("how") == "list":
         del c["how"]
+    if c.get("via") == "direct":
+        del c["via"]
     if c.get("kind") == "family":
         c["ops"] = [op[:3] if op[0] == "append" and len(op) > 3 and op[3] == "dict" else op for op in c["ops"]]
     return c
@@ -1143,6 +1507,9 @@ SHARED = ("the verdict depends on other schema objects used earlier in the same 
           "alone, the last case of this sequence is judged correctly")
 
 
+SHARED_CLAUSES = {}   # clause -> how many later cases with it were checked alone
+
+
 class History:
     """The cases evaluated so far in this process: the first and the most recent ones (a replay must be self-contained)."""
 
@@ -1185,6 +1552,177 @@ def run_isolated(cases):
         return None
 
 
+class Pristine:
+    """A process that has imported the library (and pyarrow) but used nothing of it, and that forks a child for every case
+    it is sent: each case runs in a process whose module-level state is as it is right after import — whatever the cases
+    before it did.  This is what makes "state shared between features" visible however the state is keyed."""
+
+    def __init__(self):
+        self.proc = None
+        self.broken = False
+        self.runs = 0
+        self.last_failed_at = None
+
+    def start(self):
+        import os
+        import subprocess
+        import sys
+
+        from ..core import VERIF
+
+        if os.environ.get("VERIF_C05_NO_FORK"):
+            self.broken = True      # (for testing the fallback: every case in this process)
+            return
+        self.proc = subprocess.Popen([sys.executable, "-m", "harness.props.c05", "--forkserver"], stdin=subprocess.PIPE,
+                                     stdout=subprocess.PIPE, cwd=VERIF,
+                                     env=dict(os.environ, PYTHONPATH=VERIF, OMP_NUM_THREADS="1", OPENBLAS_NUM_THREADS="1", MKL_NUM_THREADS="1"))
+        line = self._readline(60)
+        if line is None or line.strip() != b"ready":
+            self.stop()
+            self.broken = True
+
+    def _readline(self, timeout):
+        import select
+
+        r, _, _ = select.select([self.proc.stdout], [], [], timeout)
+        if not r:
+            return None
+        return self.proc.stdout.readline()
+
+    def stop(self):
+        if self.proc is not None:
+            try:
+                self.proc.kill()
+                self.proc.wait(5)
+            except Exception:
+                pass
+            self.proc = None
+
+    def run(self, case):
+        """(clause, observed) of `case` run in a fresh child, or None when that could not be done."""
+        import json
+
+        from ..core import _jsonable, unjson
+
+        if self.broken:
+            return None
+        if self.proc is None or self.proc.poll() is not None:
+            self.start()
+            if self.broken:
+                return None
+        try:
+            plain = {k: v for k, v in case.items() if k != "pristine"}
+            self.proc.stdin.write((json.dumps(_jsonable(plain)) + "\n").encode())
+            self.proc.stdin.flush()
+            line = self._readline(120)
+            if not line:
+                raise OSError("no answer")
+            out = unjson(json.loads(line.decode()))
+        except Exception:
+            self.stop()
+            self.broken = True
+            return None
+        if out is None:
+            return None          # the child died: the case is run in this process instead
+        if "error" in out:
+            raise InfraError("case %r failed in its own process: %s" % (case, out["error"]))
+        self.runs += 1
+        self.last_failed_at = out.get("failed_at")
+        return out["clause"], out["got"]
+
+
+PRISTINE = Pristine()
+
+
+def forkserver():
+    """stdin: one case (JSON) per line; stdout: {"clause", "got"} per line, each case run in a forked child of this
+    process, which has imported everything and used nothing."""
+    import json
+    import os
+    import sys
+    import traceback
+
+    from harness import runner
+    from harness.core import _jsonable, unjson
+
+    runner.setup_impl_path()
+    import warnings
+
+    import pyarrow  # noqa: F401  (imported, not used: the children must not pay for it)
+
+    try:
+        import pandas  # noqa: F401  (pyarrow's conversions import it lazily: 0.4 s per child otherwise)
+    except ImportError:
+        pass
+    import orso  # noqa: F401
+    import orso.converters  # noqa: F401
+    import orso.dataframe  # noqa: F401
+    import orso.display  # noqa: F401
+    import orso.group_by  # noqa: F401
+
+    # the other threads of this process (numerical libraries' pools) are idle: it runs nothing but this loop
+    warnings.filterwarnings("ignore", category=DeprecationWarning, message=".*fork.*")
+
+    out = sys.stdout.buffer
+    out.write(b"ready\n")
+    out.flush()
+    for line in sys.stdin.buffer:
+        if not line.strip():
+            continue
+        r, w = os.pipe()
+        pid = os.fork()
+        if pid == 0:
+            os.close(r)
+            try:
+                case_ = unjson(json.loads(line.decode()))
+                clause, got = RUNNERS[case_["kind"]](case_)
+                data = json.dumps(_jsonable({"clause": clause, "got": got, "failed_at": getattr(run_session, "failed_at", None)}))
+            except BaseException:
+                data = json.dumps({"error": traceback.format_exc()[-1500:]})
+            try:
+                with os.fdopen(w, "wb") as f:
+                    f.write(data.encode())
+            finally:
+                os._exit(0)
+        os.close(w)
+        with os.fdopen(r, "rb") as f:
+            data = f.read()
+        os.waitpid(pid, 0)
+        out.write((data or b"null") + b"\n")
+        out.flush()
+
+
+UNAVAILABLE = object()
+
+
+def fresh_run(c):
+    """(clause, observed) of the case alone in a process that has used nothing of the library before; UNAVAILABLE when
+    no such process can be had."""
+    out = PRISTINE.run({k: v for k, v in c.items() if k != "pristine"})
+    if out is None:
+        return UNAVAILABLE
+    if PRISTINE.last_failed_at is not None:
+        run_session.failed_at = tuple(PRISTINE.last_failed_at)
+    return out
+
+
+def run_fresh(cases):
+    """Clauses of `cases` run in order in a process that has used nothing of the library before (only the last clause is
+    filled in when the fork server does it: 25 ms instead of a second); None when that could not be done."""
+    flat = []
+    for x in cases:
+        flat += [dict(y) for y in x["cases"]] if x.get("kind") == "multi" else [dict(x)]
+    for x in flat:
+        x.pop("pristine", None)
+    try:
+        out = PRISTINE.run({"kind": "multi", "cases": flat})
+    except InfraError:
+        out = None
+    if out is not None:
+        return [None] * (len(cases) - 1) + [out[0]]
+    return run_isolated(cases)
+
+
 ISOLATION_BUDGET = {"s": 60.0}
 
 
@@ -1205,26 +1743,31 @@ def _isolate(c_min, c, clause, shown, history, t0):
     def left():
         return ISOLATION_BUDGET["s"] - (time.time() - t0)
 
-    if left() <= 0:
-        return c_min, shown
-    got = run_isolated([c_min])
+    got = run_fresh([c_min])
     if got is None or got[-1] == clause:
         return c_min, shown
     if c is not c_min:
-        got = run_isolated([c])
+        got = run_fresh([c])
         if got is not None and got[-1] == clause:
             return c, shown
+    if left() <= 0:
+        return c_min, shown + " (seen in this run only: it did not reproduce in a fresh process alone; no time was left to look for the earlier cases it needs)"
     pre = [x for x in history.cases()]
-    got = run_isolated(pre + [c_min])
+    got = run_fresh(pre + [c_min])
     if got is None or got[-1] != clause:
-        return c_min, shown + " (seen in this run only: it did not reproduce in a fresh process, alone or after the recorded earlier cases)"
-    budget, chunk = 30, max(1, len(pre) // 2)
+        # the shrunk case may owe its failure to what the shrinking itself left behind in this process: go back to the
+        # case as it was met, after the cases that came before it
+        got = run_fresh(pre + [c]) if c is not c_min else None
+        if got is None or got[-1] != clause:
+            return c_min, shown + " (seen in this run only: it did not reproduce in a fresh process, alone or after the recorded earlier cases)"
+        c_min = c
+    budget, chunk = 60, max(1, len(pre) // 2)
     while budget > 0 and pre and left() > 0:
         i, progress = 0, False
         while i < len(pre) and budget > 0 and left() > 0:
             trial = pre[:i] + pre[i + chunk:]
             budget -= 1
-            got = run_isolated(trial + [c_min])
+            got = run_fresh(trial + [c_min])
             if got is not None and got[-1] == clause:
                 pre, progress = trial, True
             else:
@@ -1232,55 +1775,142 @@ def _isolate(c_min, c, clause, shown, history, t0):
         if chunk == 1 and not progress:
             break
         chunk = max(1, chunk // 2)
+    # the earlier cases that are needed, made smaller (each trial is a fresh interpreter: a small budget)
+    for i in range(len(pre)):
+        if left() <= 0 or len(pre) > 3:
+            break
+
+        def still_needed(x, i=i):
+            if left() <= 0 or not valid_case(x):
+                return False
+            got_ = run_fresh(pre[:i] + [x] + pre[i + 1:] + [c_min])
+            return got_ is not None and got_[-1] == clause
+
+        pre[i] = shrink(pre[i], still_needed, budget=250)
+    if left() > 0 and c_min.get("kind") != "multi":
+        # and the case itself, after what it needs (tried in fresh processes: this one's state must not decide)
+        def still_last(x):
+            if left() <= 0 or not valid_case(x):
+                return False
+            got_ = run_fresh(pre + [x])
+            return got_ is not None and got_[-1] == clause
+
+        c_min = tidy(shrink(c_min, still_last, budget=250))
     return {"kind": "multi", "cases": pre + [c_min]}, SHARED
 
 
+def run_case(c):
+    """(clause, what was observed) of one case: in this process, or — a case marked `pristine` — in a process of its own
+    in which nothing of the library has been used yet."""
+    if c.get("pristine"):
+        out = PRISTINE.run(c)
+        if out is not None:
+            return out
+    return RUNNERS[c["kind"]](c)
+
+
 def evaluate(ctx, cases):
-    # a family is run first: where the rows of a query / distinct / batch sit in the parent is read off the frames
-    ran = {id(c): run_family(c) for c in cases if c["kind"] == "family"}
-    modelled = [c for c in cases if c["kind"] not in ("dictframe", "multi") and (c["kind"] != "family" or ran[id(c)][1]["script"] is not None)]
-    lines = [family_line(c, ran[id(c)][1]["script"]) if c["kind"] == "family" else model_line(c) for c in modelled]
-    mouts = dict(zip([id(c) for c in modelled], ctx.model.batch(lines)))
+    # every case is run first: what the model is asked depends on what was observed (where the rows of a query / distinct /
+    # batch sit in the parent; the columns of a schema the library derived from an arrow table)
+    ran = {id(c): run_case(c) for c in cases}
+    lines, owner = [], []
+    for c in cases:
+        got = ran[id(c)][1]
+        kind = c["kind"]
+        if kind == "multi" or (isinstance(got, dict) and got.get("skipped")):
+            continue
+        if kind == "dictframe":
+            if got.get("string-keys"):
+                lines.append(dictframe_line(c))
+                owner.append((id(c), "m"))
+            continue
+        if kind == "family":
+            if got["script"] is None:
+                continue
+            lines.append(family_line(c, got["script"], got.get("cols")))
+            owner.append((id(c), "m"))
+            if has_features(c):
+                lines.append(process_line(c, got["process"], got.get("cols")))
+                owner.append((id(c), "p"))
+        else:
+            lines.append(model_line(c, got.get("cols") if isinstance(got, dict) else None))
+            owner.append((id(c), "m"))
+    mouts = {}
+    for key, mo in zip(owner, ctx.model.batch(lines)):
+        if not mo.startswith("ok "):
+            raise InfraError("model rejected %r: %r" % ([c for c in cases if id(c) == key[0]][:1], mo))
+        mouts[key] = wire.dec_all(mo[3:])
     for c in cases:
         kind = c["kind"]
-        m = None
-        if id(c) in mouts:
-            mo = mouts[id(c)]
-            if not mo.startswith("ok "):
-                raise InfraError("model rejected %r: %r" % (c, mo))
-            m = wire.dec_all(mo[3:])
-        fn = RUNNERS[kind]
-        clause, got = ran[id(c)] if kind == "family" else fn(c)
+        m = mouts.get((id(c), "m"))
+        fn = run_case if c.get("pristine") else RUNNERS[kind]
+        clause, got = ran[id(c)]
         ctx.case(c, nontrivial=kind in ("dictframe", "multi", "session", "family") or len(c["cols"]) >= 1)
         record_distribution(ctx, c, got)
+        if isinstance(got, dict) and got.get("skipped"):
+            HISTORY_BUF.add(c)
+            continue
         if clause is not None:
             shown = clause
-            if kind == "session":
-                red = reduce_session(c, clause)
+            if not ctx.replaying and clause in SHARED_CLAUSES:
+                # the same failure was already reported as one that needs earlier cases of this process: a replay of this
+                # case alone would be quiet.  Unless it fails in a process of its own too, it is that violation again.
+                alone = run_fresh([c]) if SHARED_CLAUSES[clause] < 3 else None
+                SHARED_CLAUSES[clause] += 1
+                if alone is None or alone[-1] != clause:
+                    ctx.hit("violation-dup:state-shared-between-objects")
+                    HISTORY_BUF.add(c)
+                    continue
+            # does the case fail in a process of its own?  Then candidates are tried there too: what this process has been
+            # through (and what the shrinking itself leaves behind) must not decide.  None = no such process to be had.
+            fresh = None
+            if c.get("pristine"):
+                fresh = True
+            elif not ctx.replaying:
+                fr = fresh_run(c)
+                if fr is not UNAVAILABLE:
+                    fresh = fr[0] == clause
+            run = fn if (c.get("pristine") or not fresh) else fresh_run
+            if kind == "session" and fresh is not False:
+                red = reduce_session(c, clause, fresh=bool(fresh))
                 if red is not None:
                     c, clause = red
-                    fn, shown, m = RUNNERS[c["kind"]], clause, None
+                    shown, m = clause, None
+                    run = fresh_run if fresh else RUNNERS[c["kind"]]
                 else:
                     shown = HISTORY
 
-            def still(c2, fn=fn, clause=clause, kind=c["kind"]):
+            def still(c2, run=run, clause=clause, kind=c["kind"], fresh=fresh):
                 if not valid_case(c2):
                     return False
                 try:
-                    if fn(c2)[0] != clause:
+                    out = run(c2)
+                    if out is UNAVAILABLE or out[0] != clause:
                         return False
-                    return kind != "session" or reduce_session(c2, clause) is None
+                    return kind != "session" or reduce_session(c2, clause, fresh=bool(fresh)) is None
                 except Exception:
                     return False
 
             c_min = c
             if not ctx.replaying and not any(v.get("sig") == shown for v in ctx.violations):
-                c_min = shrink(c, still, budget=400)
-                t_ = tidy(c_min)
-                if t_ != c_min and still(t_):
-                    c_min = t_
+                if fresh is not False:
+                    c_min = shrink(c, still, budget=400 if not fresh else 200)
+                    smaller = drop_record_keys(c_min, still)
+                    for opt in ("via", "how", "container", "containers", "pre"):
+                        # the options of a case, back to their defaults
+                        if opt in smaller:
+                            cand = {k_: v_ for k_, v_ in smaller.items() if k_ != opt}
+                            if still(cand):
+                                smaller = cand
+                    if smaller is not c_min:
+                        c_min = shrink(smaller, still, budget=100)
+                    t_ = tidy(c_min)
+                    if t_ != c_min and still(t_):
+                        c_min = t_
                 c_min, shown = isolate(c_min, c, clause, shown, HISTORY_BUF)
-            ctx.fail(c_min, shown, impl=RUNNERS[c_min["kind"]](c_min)[1], model=m, detail=None if shown == clause else clause)
+                if shown == SHARED:
+                    SHARED_CLAUSES.setdefault(clause, 0)
+            ctx.fail(c_min, shown, impl=run_case(c_min)[1], model=m, detail=None if shown == clause else clause)
             HISTORY_BUF.add(c)
             continue
         HISTORY_BUF.add(c)
@@ -1295,8 +1925,16 @@ def evaluate(ctx, cases):
                     ctx.hit("family:model-says-frames-share-rows")
                 if m[0] != got["frames"] or not results_agree(m[1], got["results"]):
                     ctx.disagree(c, {k_: got[k_] for k_ in ("frames", "results")}, m[:2])
+                mp = mouts.get((id(c), "p"))
+                if mp is not None:
+                    ctx.hit("family:process-machine")
+                    if mp[0] != got["frames"] or not results_agree(mp[1], got["results"]):
+                        ctx.disagree(c, {k_: got[k_] for k_ in ("frames", "results")}, mp[:2], what="process machine and implementation differ")
         elif kind == "appends":
             if m[0] != got["rows"] or not results_agree(m[2], got["results"]):
+                ctx.disagree(c, got, m)
+        elif kind == "dictframe" and m is not None:
+            if m[0] != got["held"] or not results_agree(m[1], got["results"]):
                 ctx.disagree(c, got, m)
         elif kind == "session":
             mo_, ok = m[0], len(m[0]) == len(got)
@@ -1313,10 +1951,22 @@ def evaluate(ctx, cases):
                 ctx.disagree(c, got, m)
 
 
+def has_features(c):
+    """does a family case use other features of the library (anything that asks for a row class)?"""
+    return bool(c.get("pre")) or c.get("how") == "arrow" or any(op[0] == "feature" or (op[0] == "touch" and op[2] in ("select", "arrow-roundtrip")) for op in c["ops"])
+
+
 def record_distribution(ctx, c, got):
     kind = c["kind"]
     ctx.hit("kind:" + kind)
     if kind == "multi":
+        return
+    if c.get("pristine"):
+        ctx.hit("run-in-a-process-of-its-own")
+    if c.get("via") not in (None, "direct"):
+        ctx.hit("schema-made:" + c["via"])
+    if isinstance(got, dict) and got.get("skipped"):
+        ctx.hit("skipped:" + got["skipped"])
         return
     if kind == "validate":
         ctx.hit("outcome:" + got[0])
@@ -1339,6 +1989,8 @@ def record_distribution(ctx, c, got):
                 ctx.hit("append-record-object:" + k_)
     elif kind == "family":
         ctx.hit("family-root-created:" + c.get("how", "list"))
+        for f in c.get("pre") or []:
+            ctx.hit("feature-before-the-frame:" + f[0])
         sizes = [len(c["rows"])]
         for op in c["ops"]:
             if op[0] == "derive":
@@ -1353,6 +2005,8 @@ def record_distribution(ctx, c, got):
                     ctx.hit("append-record-object:" + op[3])
             elif op[0] == "touch":
                 ctx.hit("family-touch:" + op[2])
+            elif op[0] == "feature":
+                ctx.hit("feature-between-appends:" + op[1][0])
             else:
                 ctx.hit("family-read")
         for r in got["results"]:
@@ -1406,7 +2060,7 @@ def gen_col(rng, used, i):
 
 
 def gen_cols(rng, n=None):
-    n = rng.randint(0, 4) if n is None else n
+    n = (rng.randint(0, 4) if rng.random() < 0.97 else rng.choice([5, 8, 9, 16, 17, 24, 32, 33, 40])) if n is None else n
     cols = []
     for i in range(n):
         cols.append(gen_col(rng, {c[0] for c in cols}, i))
@@ -1444,12 +2098,22 @@ def gen_record_tags(rng, cols, p_valid=0.5, also=()):
     return dict(items)
 
 
+def with_route(rng, c, p=0.2):
+    """the schema of the case made some other way than by its constructor"""
+    if rng.random() < p:
+        via = rng.choice(ROUTES[1:])
+        if via == "arrow-schema" and not all(col[1] in ARROW_ROWS for col in c["cols"]):
+            via = rng.choice(["dict-roundtrip", "type-name", "pickle"])
+        c["via"] = via
+    return c
+
+
 def gen_validate(rng):
     cols = gen_cols(rng)
     c = {"kind": "validate", "cols": cols, "record": gen_record_tags(rng, cols)}
     if rng.random() < 0.25:
         c["container"] = rng.choice(RECORD_KINDS)
-    return c
+    return with_route(rng, c)
 
 
 def gen_init_rows(rng, cols, n):
@@ -1482,9 +2146,20 @@ def gen_appends(rng):
         c["how"] = "gen"
     elif r < 0.4 and not rows:
         c["how"] = "none"
+    elif r < 0.5:
+        # a frame created from an arrow table, on column names nobody in this process has used before
+        uniq = "%06x" % rng.randrange(16 ** 6)
+        ren = {}
+        for col in cols:
+            ren[col[0]] = col[0] + "_" + uniq
+            col[0], col[1] = ren[col[0]], rng.choice(list(ARROW_ROWS))
+        c["rows"] = [[rng.choice(ARROW_ROWS[col[1]]) for col in cols] for _ in rows]
+        c["records"] = gen_append_records(rng, cols)
+        c["how"] = "arrow"
+        recs = c["records"]
     if rng.random() < 0.3:
         c["containers"] = {str(i): rng.choice(RECORD_KINDS) for i in range(len(recs)) if rng.random() < 0.5}
-    return c
+    return c if c.get("how") == "arrow" else with_route(rng, c)
 
 
 def gen_mutation(rng, cur, retired, fresh_i):
@@ -1585,7 +2260,7 @@ def gen_session(rng):
             elif rng.random() < 0.2:
                 op.append("gen")
             ops.append(op)
-    return {"kind": "session", "cols": cols, "ops": ops}
+    return with_route(rng, {"kind": "session", "cols": cols, "ops": ops}, 0.15)
 
 
 def gen_derive(rng, n_frames, sizes):
@@ -1632,15 +2307,64 @@ def family_size_after(op, sizes):
     return n
 
 
-def gen_family(rng):
+def gen_feature(rng, cols):
+    """Another feature of the library used in the same process, on column names that are — or nearly are — this frame's."""
+    names = [c[0] for c in cols]
+    r = rng.random()
+    if r < 0.5:
+        ns = list(names)
+    elif r < 0.65:
+        ns = list(reversed(names)) if len(names) > 1 else list(names)
+    elif r < 0.75:
+        ns = names[:-1] or list(names)
+    elif r < 0.85:
+        ns = names + ["x" + names[0]]
+    elif r < 0.93:
+        ns = [n.upper() for n in names]
+        if len(set(ns)) != len(ns):
+            ns = list(names)
+    else:
+        ns = names[:1]
+    k = rng.choice(["arrow", "arrow", "arrow", "arrow-reader", "rowclass", "rowclass", "dictframe", "listframe", "schemaframe"])
+    if k == "arrow":
+        return ["arrow", ns, rng.choice([0, 1, 2]), rng.random() < 0.7]
+    if k == "arrow-reader":
+        return ["arrow-reader", ns, rng.choice([0, 1, 2])]
+    if k == "rowclass":
+        return ["rowclass", ns, rng.random() < 0.6]
+    if k in ("dictframe", "listframe"):
+        return [k, ns]
+    other = [[n, None if rng.random() < 0.2 else rng.choice(TYPES), rng.random() < 0.5, []] for n in ns]
+    return ["schemaframe", other, gen_record_tags(rng, other, 0.7)]
+
+
+def gen_family(rng, process=False, unique=True):
+    """`process`: the case also uses other features of the library that ask for row classes — before the root frame is made
+    and between the appends; its column names are then (`unique`) names nobody in this process has used before."""
     cols = gen_cols(rng, rng.randint(1, 3))
-    rows = gen_init_rows(rng, cols, rng.choice([0, 1, 2, 2, 3]))
-    how = "gen" if rng.random() < 0.15 else ("none" if not rows and rng.random() < 0.5 else "list")
+    n_rows = rng.choice([0, 1, 2, 2, 3])
+    how = None
+    if process:
+        if unique:
+            uniq = "%06x" % rng.randrange(16 ** 6)
+            for c in cols:
+                c[0] = c[0] + "_" + uniq
+        if rng.random() < 0.35:
+            how = "arrow"
+            for c in cols:
+                c[1] = rng.choice(list(ARROW_ROWS))
+    if how == "arrow":
+        rows = [[rng.choice(ARROW_ROWS[c[1]]) for c in cols] for _ in range(n_rows)]
+    else:
+        rows = gen_init_rows(rng, cols, n_rows)
+        how = "gen" if rng.random() < 0.15 else ("none" if not rows and rng.random() < 0.5 else "list")
     sizes = [len(rows)]
     ops = []
     for _ in range(rng.randint(3, 10)):
         r = rng.random()
-        if r < 0.5 or (not ops and not rows):
+        if process and r < 0.12:
+            ops.append(["feature", gen_feature(rng, cols)])
+        elif r < 0.5 or (not ops and not rows):
             i = rng.randrange(len(sizes))
             tags = gen_record_tags(rng, cols, 0.8)
             op = ["append", i, tags]
@@ -1660,7 +2384,9 @@ def gen_family(rng):
     c = {"kind": "family", "cols": cols, "rows": rows, "ops": ops}
     if how != "list":
         c["how"] = how
-    return c
+    if process and rng.random() < 0.7:
+        c["pre"] = [gen_feature(rng, cols) for _ in range(rng.randint(1, 2))]
+    return c if how == "arrow" else with_route(rng, c, 0.15)
 
 
 def gen_dictframe(rng):
@@ -1718,6 +2444,16 @@ def decision_table():
     for extra in ["\x01" + t for t in KEYPOOL] + ["C0", "c0 ", NFD, "k", ""]:
         yield {"kind": "validate", "cols": base, "record": {"c0": "int", NFC: "str", extra: "int"}}
     yield {"kind": "validate", "cols": base, "record": {"c0": "int", NFC: "str", "\x01intm1": "int", "\x01intm2": "int"}}
+    # a key that is not a string but prints like a column name (1 and "1", None and "None", b"c0" and "b'c0'") is an excess key
+    for key, name in (("\x01int1", "1"), ("\x01none", "None"), ("\x01bytes", "b'c0'"), ("\x01tuple", "('c0',)"), ("\x01intm1", "-1")):
+        lookalike = [[name, "INTEGER", True, []], ["c0", None, True, []]]
+        yield {"kind": "validate", "cols": lookalike, "record": {key: "int", "c0": "str"}}
+        yield {"kind": "validate", "cols": lookalike, "record": {key: "int", name: "int", "c0": "str"}}
+        yield {"kind": "appends", "cols": lookalike, "rows": [], "records": [{name: "int", "c0": "str"}, {key: "int", "c0": "str"}, {name: "none", "c0": "none"}]}
+    # two excess keys of different kinds: they cannot be ordered against each other, and are named all the same
+    for k1, k2 in (("\x01int1", "zz"), ("\x01none", "zz"), ("\x01tuple", "\x01bytes"), ("\x01int1", "\x01none"), ("\x01bytes", "")):
+        yield {"kind": "validate", "cols": base, "record": {"c0": "int", NFC: "str", k1: "int", k2: "int"}}
+        yield {"kind": "appends", "cols": base, "rows": [], "records": [{"c0": "int", NFC: "str"}, {k2: "int", "c0": "int", NFC: "str", k1: "int"}, {"c0": "none", NFC: "none"}]}
     # the row serialiser's limits, one append each, for every way a frame is created
     for how in ("list", "none", "gen"):
         for tag in ("i64max", "i64min", "u64max") + UNSIZABLE:
@@ -1791,6 +2527,147 @@ def family_table():
         yield {"kind": "family", "cols": cols, "rows": rows, "ops": [["derive", 0, "head", [5]], ["append", 1, good, kind], ["append", 0, good2, kind], ["append", 1, good]]}
 
 
+def sizes_table():
+    """Sizes at and around every power of two and every round number a fast path could be hung on: wide schemas (and so wide
+    records), frames that already hold many rows, long append histories."""
+    for n in (5, 8, 16, 17, 31, 32, 33, 63, 64, 65, 100, 127, 128, 129, 255, 256, 257, 1000):
+        cols = [["k%d" % i, (TYPES + [None])[i % 14], i % 3 != 0] for i in range(n)]
+        good = {c[0]: (RIGHT[c[1]][i % len(RIGHT[c[1]])] if c[1] else "tuple") for i, c in enumerate(cols)}
+        yield {"kind": "validate", "cols": cols, "record": good}
+        yield {"kind": "validate", "cols": cols, "record": dict(reversed(list(good.items())))}
+        for pos in (0, 1, n // 2, n - 2, n - 1):
+            name, ty, nl = cols[pos]
+            yield {"kind": "validate", "cols": cols, "record": {k: v for k, v in good.items() if k != name}}          # missing
+            yield {"kind": "validate", "cols": cols, "record": dict(good, **{name: "none"})}                           # null (allowed or not)
+            yield {"kind": "validate", "cols": cols, "record": dict(good, **{name: "set"})}                            # wrong type (or untyped)
+        yield {"kind": "validate", "cols": cols, "record": dict(good, zz="int")}
+        yield {"kind": "validate", "cols": cols, "record": dict({"zz": "int"}, **good)}
+        # one offence of each kind, far apart
+        far = dict(good)
+        del far[cols[0][0]]
+        far[cols[n // 2][0]] = "set"
+        far[cols[n - 1][0]] = "none"
+        yield {"kind": "validate", "cols": cols, "record": far}
+        if n <= 257:
+            for how in ("list", "gen"):
+                yield {"kind": "appends", "cols": cols, "rows": [], "how": how,
+                       "records": [good, far, dict(reversed(list(good.items()))), dict(good, zz="int"), good]}
+    cols = [["a", "INTEGER", False], ["b", "VARCHAR", True]]
+    good, good2, bad = {"a": "int", "b": "str"}, {"b": "none", "a": "bigint"}, {"a": "str", "b": "str"}
+    # frames that already hold many rows (the fetch size is 100)
+    for n in (99, 100, 101, 999, 1000, 1001):
+        rows = [["int0" if i % 2 else "int", "str" if i % 3 else "empty"] for i in range(n)]
+        for how in ("list", "gen", "arrow"):
+            yield {"kind": "family", "cols": cols, "rows": rows, "how": how,
+                   "ops": [["append", 0, good], ["append", 0, bad], ["derive", 0, "head", [100]], ["derive", 0, "tail", [100]], ["append", 1, good2],
+                           ["append", 2, good], ["append", 0, good2], ["derive", 0, "slice", [-101, None]], ["append", 3, good]]}
+    # long histories: every hundredth append, every 128th, … must be like the first
+    cycle = [good, bad, good2, {"a": "int"}, {"a": "int", "b": "str", "zz": "int"}, {"a": "int70", "b": "none"}, {"b": "str", "a": "true"}]
+    for n in (100, 101, 128, 129, 256, 257, 1000):
+        for how in ("list", "none", "gen"):
+            yield {"kind": "appends", "cols": cols, "rows": [] if how != "gen" else [["int", "str"]], "how": how, "records": [cycle[i % len(cycle)] for i in range(n)]}
+    yield {"kind": "family", "cols": cols, "rows": [["int", "str"]],
+           "ops": [["derive", 0, "head", [5]]] + [["append", i % 2, cycle[i % len(cycle)]] for i in range(300)] + [["derive", 0, "slice", []], ["append", 2, good]]}
+    yield {"kind": "dictframe", "first": [{"a": "int", "b": "str"}], "records": [{k: v for k, v in cycle[i % len(cycle)].items()} for i in range(300)]}
+
+
+def routes_table():
+    """However the schema was made — by its constructor, with type names, through to_dict / from_dict, to_json / from_json,
+    copy, deepcopy, pickle, with ConstantColumn / FunctionColumn columns, as the sum of two schemas, from an arrow schema —
+    the verdict is the statement's on the columns the schema object has: every column type x nullable x a right value, a
+    null and a wrong value; every subset of the four offences; appends to frames created each way."""
+    for via in ROUTES[1:]:
+        for ty in TYPES + [None]:
+            if via == "arrow-schema" and ty not in ARROW_ROWS:
+                continue
+            for nl in (False, True):
+                for tag in ([RIGHT[ty][0], RIGHT[ty][-1]] if ty else ["list"]) + ["none", "tuple", "true"]:
+                    yield {"kind": "validate", "cols": [["c0", ty, nl]], "record": {"c0": tag}, "via": via}
+                yield {"kind": "validate", "cols": [["c0", ty, nl]], "record": {}, "via": via}
+        cols = [["m", "INTEGER", True], ["n", "VARCHAR", False], ["w", "DOUBLE", True], ["u", "BOOLEAN" if via == "arrow-schema" else None, True]]
+        for missing, null, wrong, excess in itertools.product([0, 1], repeat=4):
+            rec = {"u": "true"}
+            if not missing:
+                rec["m"] = "int"
+            rec["n"] = "none" if null else "str"
+            rec["w"] = "int" if wrong else "float"
+            if excess:
+                rec["zz" if (missing + null) % 2 == 0 else "alias_m"] = "int"
+            yield {"kind": "validate", "cols": cols, "record": rec, "via": via}
+            yield {"kind": "validate", "cols": cols, "record": dict(reversed(list(rec.items()))), "via": via, "container": "UserDict"}
+        cols2 = [["a", "INTEGER", False], ["b", "VARCHAR", True]]
+        for how, rows in (("list", [["int", "str"]]), ("none", []), ("gen", [["int0", "empty"]])):
+            yield {"kind": "appends", "cols": cols2, "rows": rows, "how": how, "via": via,
+                   "records": [{"b": "str", "a": "int"}, {"a": "str", "b": "str"}, {"a": "int"}, {"a": "int70", "b": "none"}, {"a": "bigint", "b": "none"}]}
+        yield {"kind": "family", "cols": cols2, "rows": [["int", "str"]], "via": via,
+               "ops": [["append", 0, {"a": "int", "b": "str"}], ["derive", 0, "head", [5]], ["append", 1, {"b": "none", "a": "int0"}],
+                       ["append", 0, {"a": "str", "b": "str"}], ["append", 0, {"b": "str", "a": "bigint"}]]}
+        full = {"a": "int", "b": "str"}
+        yield {"kind": "session", "cols": cols2, "via": via,
+               "ops": [["validate", full], ["add", ["d", "DOUBLE", True, []]], ["validate", full], ["validate", {"a": "int", "b": "str", "d": "float"}],
+                       ["set", 0, ["a", "INTEGER", True, []]], ["validate", {"a": "none", "b": "str", "d": "float"}], ["del", 1],
+                       ["frame", [], [{"a": "int", "d": "float"}, full]]]}
+
+
+def process_table():
+    """State shared between features, seen from append: every other way the library is asked for a row class — reading an
+    arrow table with the same / permuted / fewer / more / re-cased column names, the reader alone, `Row.create_class` with
+    and without `tuples_only` in both orders, frames built from dictionaries or on a list of names, a frame on another
+    schema with equally named columns — BEFORE the frame is made, and BETWEEN its appends and the frames taken from it,
+    for every way the frame itself is created (a list, None, a generator, an arrow table).  Every case is run in a
+    process of its own, so whichever request is the first of its kind in a process is tried."""
+    cols = [["a", "INTEGER", False], ["b", "VARCHAR", True]]
+    names = ["a", "b"]
+    other = [["a", "VARCHAR", True], ["b", "INTEGER", True]]
+    good, good2, bad = {"a": "int", "b": "str"}, {"b": "none", "a": "bigint"}, {"a": "str", "b": "str"}
+    features = {
+        "nothing": [],
+        "arrow-same": [["arrow", names, 2, True]], "arrow-unread": [["arrow", names, 2, False]], "arrow-empty": [["arrow", names, 0, True]],
+        "arrow-permuted": [["arrow", ["b", "a"], 1, True]], "arrow-fewer": [["arrow", ["a"], 1, True]],
+        "arrow-more": [["arrow", ["a", "b", "c"], 1, True]], "arrow-recased": [["arrow", ["A", "B"], 1, True]],
+        "reader-same": [["arrow-reader", names, 1]],
+        "rowclass-tuples": [["rowclass", names, True]], "rowclass-dicts": [["rowclass", names, False]],
+        "rowclass-tuples-dicts": [["rowclass", names, True], ["rowclass", names, False]],
+        "rowclass-dicts-tuples": [["rowclass", names, False], ["rowclass", names, True]],
+        "rowclass-permuted-tuples": [["rowclass", ["b", "a"], True]], "rowclass-no-fields": [["rowclass", [], True]],
+        "dictframe-same": [["dictframe", names]], "dictframe-permuted": [["dictframe", ["b", "a"]]], "listframe-same": [["listframe", names]],
+        "schemaframe-same-names": [["schemaframe", other, {"a": "str", "b": "int"}]],
+        "schemaframe-permuted": [["schemaframe", [other[1], other[0]], {"a": "str", "b": "int"}]],
+        "arrow-then-dicts": [["arrow", names, 1, True], ["rowclass", names, False]],
+        "dicts-then-arrow": [["rowclass", names, False], ["arrow", names, 1, True]],
+    }
+    for tag, fs in features.items():
+        between = [["feature", f] for f in fs]
+        for how, rows in (("list", [["int", "str"]]), ("none", []), ("gen", [["int0", "empty"]]), ("arrow", [["int", "str"]]), ("arrow", [])):
+            scripts = [
+                # the other features first, then the frame
+                (fs, [["append", 0, good], ["append", 0, bad], ["append", 0, good2], ["derive", 0, "head", [5]], ["append", 1, good2], ["append", 0, good]]),
+            ]
+            if fs:
+                # the frame first; the other features between its appends and before frames are taken from it
+                scripts.append(([], [["append", 0, good]] + between + [["append", 0, good2], ["derive", 0, "slice", []]] + between
+                                + [["append", 1, good], ["append", 0, bad], ["derive", 1, "tail", [1]], ["append", 2, good2], ["append", 1, good2]]))
+            for pre, ops in scripts:
+                c = {"kind": "family", "cols": cols, "rows": rows, "ops": ops, "pristine": True}
+                if how != "list":
+                    c["how"] = how
+                if pre:
+                    c["pre"] = pre
+                yield c
+    # a frame made from an arrow table first, then a frame on a schema of its own with the same column names — and the other
+    # way round — in one process
+    arrow_first = {"kind": "appends", "cols": cols, "rows": [["int", "str"]], "how": "arrow", "records": [good, bad, good2]}
+    for how2 in ("list", "none", "gen"):
+        plain = {"kind": "appends", "cols": cols, "rows": [], "how": how2, "records": [good2, bad, good, {"a": "int"}]}
+        yield {"kind": "multi", "cases": [arrow_first, plain], "pristine": True}
+        yield {"kind": "multi", "cases": [plain, arrow_first], "pristine": True}
+        yield {"kind": "multi", "cases": [arrow_first, dict(plain, cols=[cols[1], cols[0]])], "pristine": True}
+    # the round trip of a frame through arrow, and a projection of it, between its appends
+    for touch in ("arrow-roundtrip", "select", "group_by"):
+        yield {"kind": "family", "cols": cols, "rows": [["int", "str"]], "pristine": True,
+               "ops": [["touch", 0, touch], ["append", 0, good], ["derive", 0, "head", [5]], ["touch", 1, touch], ["append", 1, good2], ["append", 0, good2]]}
+
+
 def session_table():
     """Use -> change -> use again, once for every way the column list of one schema object can change."""
     a, b, d = ["a", "INTEGER", False, ["id"]], ["b", "VARCHAR", True, []], ["d", "DOUBLE", True, []]
@@ -1836,8 +2713,14 @@ def run(ctx):
     n_dec = len(cases)
     sess = list(session_table())
     fam = list(family_table())
-    cases += sess + fam
+    proc = list(process_table())
+    routes = list(routes_table())
+    sizes = list(sizes_table())
+    cases += sess + fam + proc + routes + sizes
     evaluate(ctx, cases)
+    ctx.note("sizes_scope", "sizes: schemas (and records) of 5 … 1000 columns at and around every power of two x conforming / each offence at the first, second, middle, last-but-one and last column / an excess key first or last / three offences far apart, through validate and append; frames that already hold 99 / 100 / 101 / 999 / 1000 / 1001 rows (list, generator, arrow) with appends and derivations; append histories of 100 … 1000 records; 300 appends alternating between two frames (%d cases)" % len(sizes))
+    ctx.note("routes_scope", "schema routes: the schema made by its constructor / with type names / through to_dict-from_dict / to_json-from_json / copy / deepcopy / pickle / with ConstantColumn or FunctionColumn columns / as the sum of two schemas / from an arrow schema x every column type x nullable x right, null and wrong values, every subset of the four offences, appends to frames created each way, a family and a session (%d cases); judged against the columns the schema object has" % len(routes))
+    ctx.note("process_scope", "process table: every other way the library is asked for a row class (arrow table read with the same / permuted / fewer / more / re-cased column names, the arrow reader alone, Row.create_class with and without tuples_only in both orders, frames built from dictionaries / on a list of names / on another schema with equally named columns) before the frame is made and between its appends and derivations x frame created from a list / None / a generator / an arrow table; an arrow-made frame and a schema-made frame with the same column names in one process, in both orders (%d cases, each run in a process of its own: a forked child of a process that has imported the library and used nothing of it); random families with such features on column names unique to the case (in this process) and with the plain names (in a process of their own)" % len(proc))
     ctx.note("family_scope", "family table: a root frame of 0..3 rows created from a list / None / a generator x every way of taking a frame from it (head, tail, slice at, one below and one past the size of the parent, with and without a length, negative offsets; query, distinct, filter and take with masks / indexes longer than the frame, to_batches, +) x four scripts (append to the parent, to the child, read the child in between, a chain of three frames) (%d cases); every record object (dict, OrderedDict, defaultdict, UserDict, a dict subclass, Counter, ChainMap, a custom MutableMapping; MappingProxyType, a custom read-only Mapping, a duck-typed look-alike; a list of pairs, dict_items, the values as a tuple, a Row, a namedtuple, None) through validate and through append on frames created each way" % len(fam))
     ctx.note("exhaustive_scope", "decision table: every column type (and untyped) x nullable x every value of the pool (subclasses, numpy scalars, unhashable and nested values, 64-bit limits), every subset of {missing, null, wrong type, excess} in two key orders and three record containers, record keys that are not strings or differ from a name in case / normal form / a trailing space, the row serialiser's limits for each way a frame is created (%d cases); session table: use -> change -> use again for every way the column list of one schema object can change x first use x state touched in between (%d cases); then random schemas, records, append histories and sessions" % (n_dec, len(sess)))
     n = ctx.scale(40000, 500000)
@@ -1847,9 +2730,18 @@ def run(ctx):
         for _ in range(1500):
             r = ctx.rng.random()
             batch.append(gen_validate(ctx.rng) if r < 0.33 else gen_appends(ctx.rng) if r < 0.5 else gen_session(ctx.rng) if r < 0.75
-                         else gen_family(ctx.rng) if r < 0.96 else gen_dictframe(ctx.rng))
+                         else gen_family(ctx.rng) if r < 0.90 else gen_family(ctx.rng, process=True) if r < 0.96 else gen_dictframe(ctx.rng))
         evaluate(ctx, batch)
         done += len(batch)
+    # random families that use other features of the library, each in a process of its own
+    n_own = ctx.scale(250, 4000)
+    done = 0
+    while done < n_own and ctx.time_left() > 5:
+        batch = [dict(gen_family(ctx.rng, process=True, unique=False), pristine=True) for _ in range(min(250, n_own - done))]
+        evaluate(ctx, batch)
+        done += len(batch)
+    ctx.note("own_process_runs", PRISTINE.runs)
+    PRISTINE.stop()
     # appends that pass validation at the record size cap: exactly at it, one past it, far past it (slow: single cases)
     for tag, n_chars in (("at-cap", 16 * 1024 * 1024 - 6), ("past-cap", 16 * 1024 * 1024 - 5), ("huge", 17 * 1024 * 1024)):
         big = {"kind": "appends", "cols": [["c0", "VARCHAR", True]], "rows": [], "records": [{"c0": "str"}, {"c0": tag}, {"c0": "empty"}]}
@@ -1888,7 +2780,8 @@ def intensify(ctx):
     for _ in range(5):
         evaluate(ctx, [gen_validate(ctx.rng) for _ in range(2000)] + [gen_appends(ctx.rng) for _ in range(1000)]
                  + [gen_session(ctx.rng) for _ in range(1500)] + [gen_dictframe(ctx.rng) for _ in range(100)]
-                 + [gen_family(ctx.rng) for _ in range(1500)])
+                 + [gen_family(ctx.rng) for _ in range(1500)] + [gen_family(ctx.rng, process=True) for _ in range(500)]
+                 + [dict(gen_family(ctx.rng, process=True, unique=False), pristine=True) for _ in range(150)])
         if ctx.violations:
             return
 
@@ -1925,6 +2818,9 @@ if __name__ == "__main__":
     from harness import runner
     from harness.core import unjson
 
+    if "--forkserver" in sys.argv:
+        forkserver()
+        sys.exit(0)
     runner.setup_impl_path()
     out = []
     for case_ in unjson(json.load(sys.stdin)):
